@@ -3,7 +3,7 @@ CONSTANTS
   H = {1, 2, 3}
   D0 = {}
   Mode = "wire"
-  KindsUnderTest = {"NACK", "SLI", "FIR", "SR", "RR"}
+  KindsUnderTest = {"NACK", "SLI", "FIR", "SR", "RR", "TWCC"}
   FaultDepth = 1
   MaxFrames = 2
   MaxCompound = 3
